@@ -133,10 +133,11 @@ class Renames(EvalableModel):
     """
 
     def get_renames_for_einsum(self, einsum_name: EinsumName) -> EinsumRename:
-        if einsum_name not in self.einsums:
+        matches = [e for e in self.einsums if e.name == einsum_name]
+        if not matches:
             rename = EinsumRename(name=einsum_name)
         else:
-            rename = copy.deepcopy(self.einsums[einsum_name])
+            rename = copy.deepcopy(matches[0])
         for einsum in self.einsums:
             if einsum.name != "default":
                 continue
